@@ -252,3 +252,25 @@ Proof.
   - lia.
   - rewrite Hn. reflexivity.
 Qed.
+
+(* ---- what goes wrong outside the proved region (witnesses computed in the kernel) ---- *)
+Lemma read_bitpacked_w25_ub : exists w g isz cap input,
+  0 < w <= 32 /\ (isz = 1 \/ isz = 4) /\ ~ (w = 1 /\ isz = 1) /\
+  0 < g < 2 ^ 28 /\ bytes_ok input /\ g * w <= N.of_nat (length input) /\
+  c_read_bitpacked input (Z.of_N (2 * g + 1)) w cap isz = UB.
+Proof.
+  exists 25, 2, 4, 64, (repeat 255 50).
+  repeat split; try (vm_compute; congruence); try (right; reflexivity).
+  - intros [E _]; discriminate E.
+  - apply Forall_forall. intros x Hx. apply repeat_spec in Hx. subst. reflexivity.
+Qed.
+
+Lemma read_bitpacked_empty_run : exists w isz cap input,
+  0 < w <= 24 /\ (isz = 1 \/ isz = 4) /\ ~ (w = 1 /\ isz = 1) /\ bytes_ok input /\
+  c_read_bitpacked input 1 w cap isz = Ok {| d_vals := []; d_used := 1; d_written := 0 |}.
+Proof.
+  exists 3, 4, 32, [7].
+  repeat split; try (vm_compute; congruence); try (right; reflexivity).
+  - intros [E _]; discriminate E.
+  - repeat constructor.
+Qed.
